@@ -83,6 +83,13 @@ def _install(sim, market, a):
     def do(snapshot, **kwargs):
         sim.event("fire", tid, snapshot.timestamp, kwargs)
         sim.trig_calls.setdefault(tid, []).append((sim.bar, snapshot.timestamp, kwargs))
+        # "the supplied extra arguments": a list or dict handed over at construction (a journal the action appends to, a
+        # state dict) reaches the action as that very object, not as a look-alike
+        for name, val in kwargs.items():
+            if isinstance(val, (list, dict)) and name in (a.get("kwargs") or {}) and val is not a["kwargs"][name]:
+                if not hasattr(sim, "trig_foreign_kwargs"):
+                    sim.trig_foreign_kwargs = {}
+                sim.trig_foreign_kwargs.setdefault(tid, name)
         # what an action returns is its own business (Trigger.do hands it back, the loop has no use for it)
         r = a.get("returns")
         return {"count": len(sim.trig_calls[tid]), "time": snapshot.timestamp, "list": [1], "true": True, "dict": {"ok": 1}}.get(r)
@@ -342,8 +349,9 @@ def generate(seed: int, tier: str = "quick") -> dict:
                 spec["ranges"] = [[sec(a) if rp.random() < 0.5 else a, sec(b) if rp.random() < 0.5 else b] for a, b in spec["ranges"]]
         spec["kwargs"] = gen_kwargs()
         bar, phase = -1, "initialize"
-        if kind not in ("period", "periods") and rp.random() < 0.12:
-            bar, phase = rp.randint(0, nb - 1), "before_bar"  # installed while the run is under way
+        if rp.random() < (0.12 if kind not in ("period", "periods") else 0.08):
+            # installed while the run is under way (in before_bar: first evaluated in that very bar, which is T0 of a period)
+            bar, phase = rp.randint(0, nb - 1), "before_bar"
         elif rp.random() < 0.15:
             # attached before run() is called (in the strategy's constructor, or by the script that assembled the actuator)
             bar, phase = -2, "pre_run"
@@ -486,6 +494,8 @@ class TriggerOracle(Oracle):
             bad_kw = [(ts, kw) for bar, ts, kw in calls if kw != want_kw]
             if bad_kw:
                 sim.violate("c18.kwargs", f"{kind}:kwargs_not_as_supplied", spec=spec, bar=bad_kw[0][0], got=bad_kw[0][1], want=want_kw)
+            elif tid in getattr(sim, "trig_foreign_kwargs", {}):
+                sim.violate("c18.kwargs", f"{kind}:not_the_supplied_object", spec=spec, argument=sim.trig_foreign_kwargs[tid])
             # coverage
             feats = self.feats[tid]
             sim.count("probe:firings", len(calls))
@@ -644,9 +654,10 @@ ASSUMPTIONS = [
     "a time that is not a bar timestamp denotes no bar (fired set = denoted instants intersected with the bar grid); ranges "
     "select the bars whose timestamp lies in [start, end)",
     "a time given with a seconds part denotes its minute (the constructors document that they set the seconds to 0; the bar clock has minute resolution); lists of periods are non-empty, lists of times / ranges may be empty (they denote no bar); periods are >= one bar",
-    "T0 of a period trigger is the timestamp of the first bar of the run (period triggers are installed in initialize, or "
-    "attached to the strategy before run() is called, as a constructor or the assembling script would); "
-    "only time and range triggers are also installed mid-run, where bars before the installation are not denoted; triggers are "
+    "T0 of a period trigger is the timestamp of the bar in which it is first evaluated: the first bar of the run for one "
+    "installed in initialize or attached before run() is called, the bar of its installation for one installed from before_bar "
+    "mid-run; bars before a mid-run installation are not denoted; a list or dict among the extra arguments reaches the "
+    "action as the very object that was supplied; triggers are "
     "installed by appending to strategy.triggers or by assigning a new list to it, and some are later taken off again by the "
     "strategy (in place or by assignment, from before_bar / on_bar / after_bar): the bar's trigger evaluation lies between "
     "before_bar and on_bar, so a trigger taken off in before_bar is last evaluated in the previous bar",
